@@ -104,8 +104,11 @@ CLAIMED = {
             "in the hull of the projected control points), and every evaluated point lies inside boundingBox of the (Cartesian) net (boundingBox proved to bound every net point). "
             "END TO END (span search + evaluation, every parameter of the closed domain incl. the right end): curvePoint / surfacePoint / volumePoint lie in boundingBox of the net and in the hull of the control points active on the spans the search finds, "
             "rational versions with positive weights; a clamped curve starts / ends at its first / last control point, corners of clamped surfaces / volumes are the corner control points. "
+            "LENGTH: for every seminorm N (Euclidean over R is an instance; l1 proved an instance over every ordered field) and the model polylineLength / curveLength of operations.length_curve (tied by the exact 'lensum' correspondence): length >= chord (any point list; "
+            "clamped curves: end-to-end chord, >= 2 samples); knot insertion never lengthens the control polygon (r copies, sequences); the polyline through curve points at any increasing parameters, in particular the linspace samples for every sample size, is <= the control polygon "
+            "(degree >= 1, non-rational, end-clamped). "
             "Model function boundingBox tied to the bbox property by exact correspondence; the exact oracle checks hull (axes + random directions), bbox, clamped ends on curves, surfaces, volumes, rational or not.",
-            "Not a Lean theorem: that find_ctrlpts returns exactly the active control points (C20 has the index statement), the object layer's dispatch; the clamped start needs a non-empty first span. Not proved: curve length bounds (floating point sqrt, oracle only)."),
+            "Not a Lean theorem: that find_ctrlpts returns exactly the active control points (C20 has the index statement), the object layer's dispatch; the clamped start needs a non-empty first span. Not a theorem: float sqrt / summation respecting the length bounds (oracle, 1e-12 slack); rational curves in the length bounds."),
     'C09': ("7/C09",
             "Lean theorems (23, all discharged): the list helpers combine / separate / generate_* are mutually inverse; for EVERY history of the three setters, the three reads and reverse the views "
             "satisfy ctrlptsw = combine(ctrlpts, weights) (invariant by induction over the op list); setter round trips; bspline_to_nurbs / nurbs_to_bspline; unit weights evaluate identically and a common "
@@ -134,11 +137,12 @@ CLAIMED = {
             "Model = repaired __eq__ (F-19 fixed by a fix: commit after the check reported it with a replay); tolerance = value of 10 ** (-precision) passed to the model by the harness; mixed-precision pairs (asymmetric ==) are compared "
             "with the model but not judged; copy.deepcopy itself is checked by the oracle only."),
     'C15': ("7/C15",
-            "Lean theorems (22) over the repaired model, for all grid sizes >= 2 and any spacing: vertex ids 0..V-1, every face index < V, faces exactly the two triangles of every cell, F = 2(nu-1)(nv-1), uniform positive "
+            "Lean theorems (29) over the repaired model, for all grid sizes >= 2 and any spacing: vertex ids 0..V-1, every face index < V, faces exactly the two triangles of every cell, F = 2(nu-1)(nv-1), uniform positive "
             "orientation, area sum = the rectangle's, cell partition, duplicate-free edge list with explicit E, edge incidences (boundary 1, interior 2 in opposite directions), V - E + F = 1, quad mesh, export offsets and blocks, "
             "STL normal = cross product orthogonal to the edges, stored uv = the sampling parameter; refutation of the pinned size expression for every dividing spacing >= 3. Exact correspondence with TriangularTessellate, "
-            "QuadTessellate, Surface.tessellate, SurfaceContainer, export_obj/off/stl, triangle_normal.",
-            "Trimmed tessellation is not modelled (exact oracle test on rectangular polygonal trims only; spline trims untested); the whole-rectangle point-set tiling is not assembled into one theorem; file syntax and binary STL packing are oracle-only. "
+            "QuadTessellate, Surface.tessellate, SurfaceContainer, export_obj/off/stl, triangle_normal; plus the whole-rectangle POINT-SET TILING (the closed triangles cover the rectangle spanned by the grid lines, nothing sticks out, "
+            "a point interior to a face lies in no other face; [0,1]^2 when the spacing divides size-1) and the quad mesh vertex parameters (= grid sample parameters = the triangle mesher's for spacing 1; own driver op and exact correspondence with QuadTessellate .uv, after the repair F-15c).",
+            "Trimmed tessellation is not modelled (exact oracle test on rectangular polygonal trims only; spline trims untested); when the spacing does not divide size-1 the grid ends before parameter 1 (code behaviour; the tiling theorems speak about the rectangle the grid spans); file syntax and binary STL packing are oracle-only. "
             "F-15 was reported with a replay and fixed; F-01 and F-15b (container sample size) are recorded findings."),
     'C20': ("7/C20",
             "Lean theorems (48) over any linearly ordered field: is_left = 2x2 determinant with sign meaning and affine covariance; convex_hull is CORRECT for every finite point list (vertices are input points, pairwise distinct, every input point is left-of-or-on every edge "
@@ -159,9 +163,9 @@ CLAIMED = {
             "Hypothesis, not proved: the collocation matrix / N^T N have non-zero Doolittle pivots (Schoenberg-Whitney; the harness checks lu_solve returns on every generated data set). The minimised sum runs over the interior data points (objective of Eq. 9.63); "
             "the version for the EVALUATED curve (approximateCurve_least_squares, using C03's basis_function_one = Cox-de Boor) needs positive chord lengths; the interpolation knot vector is non-decreasing under invp*p*u_(n-2) <= 1 (invp is the double 1.0/p). approximate_surface is not modelled (oracle only: corner interpolation)."),
     'C14': ("7/C14",
-            "Lean theorems (25) over a token-level model (numbers are abstract tokens) of the smesh, vmesh (repaired), txt 1-D/2-D and csv files and of the dict form behind JSON (trims, delta, sense flags, containers): "
-            "import o export = identity up to rational form (unit weights) and normalised knot vectors for every degree, size triple, net and container length; documented row/column order; evaluation invariant under the reader's "
-            "knot normalisation; pinned vmesh reader and pinned 2-D file saver refuted by kernel decide on 2x3x4 and 2x3 witnesses. The real writers' file contents (tokenised, numbers canonicalised) and the real readers' results are "
+            "Lean theorems (43) over a token-level model (numbers are abstract tokens) of the smesh, vmesh (repaired), txt 1-D/2-D and csv files and of the dict form behind JSON (trims, delta, sense flags, containers): "
+            "import o export = identity up to rational form (unit weights) and normalised knot vectors for every degree, size triple, net and container length; documented row/column order; END TO END: evaluate_single (library span search + A3.1 / A3.5 / volume evaluation + weight division) of the REIMPORTED shape at the normalised parameter = the exported shape's point, rational or not, "
+            "curves / surfaces / volumes, smesh / vmesh / dict form, containers elementwise, every parameter of the closed domain; 2-D file helpers (repaired flip / weight / unweight; the pinned flip raises) for EVERY rectangular file; pinned vmesh reader and pinned 2-D file saver refuted by kernel decide on 2x3x4 and 2x3 witnesses. The real writers' file contents (tokenised, numbers canonicalised) and the real readers' results are "
             "compared with the model's; the oracle checks export-then-import at public level for JSON (curves, surfaces, volumes, containers, trims, delta), smesh, vmesh, txt, csv.",
             "Numbers are abstract tokens: the print/parse round trip is checked only by the float-mode companion at printed precision. Exact mode runs smesh/vmesh natively, txt/csv through an extended float shadow, JSON with dyadic inputs. "
             "YAML / libconfig / Jinja2 skipped (packages missing). Model mirrors the repaired code (F-14a, F-14b fixed by fix: commits after the check reported them with replays)."),
